@@ -256,11 +256,14 @@ pub fn sample_archives() -> Vec<(&'static str, Vec<u8>)> {
             (b"mTIM".to_vec(), 7u64.to_be_bytes().to_vec()),
             (b"fSIZ".to_vec(), vec![0, 0, 5]),
             (b"abCd".to_vec(), vec![1, 2, 3]),
+            (b"myTY".to_vec(), b"unknown, not safe to copy".to_vec()),
+            (b"QRST".to_vec(), b"unknown critical public".to_vec()),
             (b"FEND".to_vec(), vec![]),
             (b"SHED".to_vec(), vec![0, 0, 0, 0, 0]),
             (b"qqQq".to_vec(), b"solid extra".to_vec()),
+            (b"qqQQ".to_vec(), b"solid extra, not safe to copy".to_vec()),
             (b"SDAT".to_vec(), raw_chunk(b"FHED", &[0, 0, 0, 0, 0, 0, b'i'])),
-            (b"SDAT".to_vec(), { let mut x = raw_chunk(b"inNr", b"inner unknown"); x.extend(raw_chunk(b"FDAT", b"q")); x.extend(raw_chunk(b"FEND", b"")); x }),
+            (b"SDAT".to_vec(), { let mut x = raw_chunk(b"inNr", b"inner unknown"); x.extend(raw_chunk(b"inNR", b"inner unknown 2")); x.extend(raw_chunk(b"FDAT", b"q")); x.extend(raw_chunk(b"FEND", b"")); x }),
             (b"SEND".to_vec(), vec![]),
             (b"AEND".to_vec(), vec![]),
         ];
@@ -343,4 +346,17 @@ pub fn grammar_archive(r: &mut Rng) -> Vec<u8> {
     }
     let number = if r.chance(1, 6) { u32::MAX } else { r.below(3) as u32 };
     raw_archive(number, &cs)
+}
+
+/// a chunk type the library does not know: four ASCII letters in any case pattern (all sixteen
+/// combinations of the critical / private / reserved / safe-to-copy bits)
+pub fn unknown_type(r: &mut Rng) -> Vec<u8> {
+    const KNOWN: &[&[u8; 4]] = &[b"AHED", b"AEND", b"ANXT", b"FHED", b"PHSF", b"FDAT", b"FEND", b"SHED", b"SDAT", b"SEND",
+        b"fSIZ", b"cTIM", b"mTIM", b"aTIM", b"fPRM", b"xATR"];
+    loop {
+        let t: Vec<u8> = (0..4).map(|_| { let c = b'a' + r.below(26) as u8; if r.chance(1, 2) { c.to_ascii_uppercase() } else { c } }).collect();
+        if !KNOWN.iter().any(|k| &k[..] == &t[..]) {
+            return t;
+        }
+    }
 }
